@@ -366,3 +366,10 @@ PROPS["C20"]["thorough"].append({"variant": "default", "cases": 160, "params": {
 for _p in ("C01", "C02"):
     PROPS[_p]["quick"].append({"variant": "default", "cases": 5000, "params": {"profile": "mix", "naming": "fhigh"}, "timeout": 600})
     PROPS[_p]["thorough"].append({"variant": "default", "cases": 150000, "params": {"profile": "mix", "naming": "fhigh"}, "timeout": 3000})
+
+# C03 substitution-focused lane: let-terms with plain and unit-decorated occurrences of the bound variable, rule set always with
+# let-subst and the unit rules (a variable's class may die into a composite class before the substitution runs)
+PROPS["C03"]["quick"].append({"variant": "default", "cases": 3000, "params": {"subst": 1}, "timeout": 900})
+PROPS["C03"]["quick"].append({"variant": "explanations", "cases": 400, "params": {"subst": 1}, "timeout": 900})
+PROPS["C03"]["thorough"].append({"variant": "default", "cases": 40000, "params": {"subst": 1, "case_timeout": 120}, "timeout": 3400})
+PROPS["C03"]["thorough"].append({"variant": "explanations", "cases": 3000, "params": {"subst": 1, "case_timeout": 120}, "timeout": 3400})
